@@ -7,7 +7,7 @@ from .common import Driver
 from . import jsonval as J
 
 LEVEL = 'model_checking'
-BUDGET_S = {'quick': 90, 'thorough': 900}
+BUDGET_S = {'quick': 160, 'thorough': 900}
 BOUNDS = {
     'quick': 'call graph outer -> mid -> leaf plus an independent sibling, each of outer/mid/leaf a subbuild or a '
              'build_file (all 8 combinations); one function gets arbitrary (old, new) versions from '
